@@ -195,10 +195,10 @@ func init() {
 						// n <= 0 as "nothing to read", so a length word with the top bit set would yield an empty
 						// string and leave the content bytes to be parsed as the following fields
 						core := stripWiden(n)
-						if cs := setAt(fn, core, call); !cs.subsetOf(rng(0, posInf)) {
+						if cs := setAt(fn, core, call).intersect(defRange(core, 0)); !cs.subsetOf(rng(0, posInf)) {
 							r.Bad(fname(fn), "Reader.Next length is non-negative", call.Pos(), "the length passed to Next can be negative here (%s, values %s): Next(n<=0) returns an empty slice without consuming the announced content", pathOf(core), cs)
 						} else {
-							r.OK(fname(fn), "Reader.Next length is non-negative", call.Pos(), "length in %s", cs)
+							r.OK(fname(fn), "Reader.Next length is non-negative", call.Pos(), "length in %s", setAt(fn, core, call).intersect(defRange(core, 0)))
 						}
 						if allOK && ok2 {
 							r.OK(fname(fn), "Reader.Next", call.Pos(), "data use is dominated by a length guard whose failing branch returns an error")
